@@ -210,6 +210,29 @@ def value_exclusion(chk, ev):
     return None
 
 
+PRESENCE_RULES = [
+    # (variant alternative, value the helper must never yield for it, why)
+    ("sbe::set", "constant", "sets have no constant form: a consumer arm for constant sets is declared unreachable"),
+    ("sbe::set", "optional", "sets have no null value: set fields are required whatever the <field> declares"),
+    ("sbe::enumeration", "optional", "enums have no null value: an enum field declared optional is required (its value_type cannot hold nullopt)"),
+]
+
+
+def check_presence_rules(chk):
+    """G-PRES: what `get_actual_presence` may yield per kind of encoding (the documented "actual presence" rules the
+    traits, accessors and visitors are generated from), decided by value exclusion on the visitor's handlers"""
+    for alt, x, why in PRESENCE_RULES:
+        ev = {"fn": "sbe_schema_validator::get_actual_presence", "alternative": alt, "excludes": x}
+        bad = value_exclusion(chk, ev)
+        key = "presence:%s:never-%s" % (alt, x)
+        if bad:
+            chk.violation("G-PRES", key, "sbeppc/src/sbepp/sbeppc/sbe_schema_validator.hpp",
+                          "get_actual_presence can yield `%s` for a field whose encoding is a %s (%s): %s" % (x, alt, why, bad))
+        else:
+            chk.ok("G-PRES", key, {"rule": why}, nontrivial=True)
+    return len(PRESENCE_RULES)
+
+
 def dump_unguarded():
     out = {}
     for s in sites():
